@@ -1,12 +1,13 @@
 (* C13 — the wire rate never exceeds the negotiated ceiling. Statements only.
    Proved: X <= ceiling in every reachable rate-controller state (from C14), a frame of any kind is only
    started with non-negative credit, step() caps the credit at round(X * rtt) and adds floor(X*t') - floor(X*t)
-   (independent of the step schedule, D20), and for a whole flush() of the
+   (independent of the step schedule, D20), over whole histories bytes emitted = initial credit + step gains - credit
+   (CreditLedger.v: no other operation moves the credit or emits bytes), and for a whole flush() of the
    HalfConnection (ack, data and sync frames, all loops): credit' = credit - bytes emitted exactly, nothing is
    emitted on a negative credit, and all frames but the last fit in the credit (HcCredit.v). The real-valued bound
    bytes <= ceiling * (interval + rtt) + one frame is checked on the implementation's frames with the
    virtual clock by the oracle; it is not derived here through the float arithmetic (partial). *)
-From UF Require Import Consts Base Frame F64 FrameQueue SendRate HalfConn HcLemmas SendRateProofs HcCredit.
+From UF Require Import Consts Base Frame F64 Sender FrameQueue SendRate HalfConn HcLemmas SendRateProofs HcTotal HcCredit CreditLedger.
 
 Theorem C13_rate_le_ceiling :
   forall m ops, MSS <= m -> sr_rate (fold_left rate_step ops (src_new m)) <= m.
@@ -67,7 +68,42 @@ Theorem C13_frame_length :
   forall seq nonce enc count, len (Codec.build_data_frame seq nonce enc count) = 6 + len enc + 4.
 Proof. exact build_data_frame_len. Qed.
 
+(* ---------- whole histories of a HalfConnection (CreditLedger.v) ---------- *)
+(* for any sequence of sends, receives, steps, flushes and incoming frames: bytes emitted = initial credit + gains of
+   the steps - current credit; nothing else moves the credit or emits bytes *)
+Theorem C13_credit_ledger :
+  forall h0 ops,
+  let l := fold_left lstep ops (mkLedger h0 0 0) in
+  lg_h l = fold_left hc_apply ops h0 /\ (lg_bytes l = h_credit h0 + lg_gain l - h_credit (lg_h l))%Z /\ (0 <= lg_bytes l)%Z.
+Proof. exact credit_ledger. Qed.
+Print Assumptions C13_credit_ledger.
+
+(* the gain of one step: none for the first step, otherwise at most floor(X*t_now) - floor(X*t_prev), never above the cap *)
+Theorem C13_step_gain :
+  forall h now h', hc_step h now = Ok h' ->
+  match h_last_flushed h with
+  | None => h_credit h' = h_credit h
+  | Some t => (h_credit h' <= sat_add_isize (h_credit h) (refill (sr_rate (h_src h)) t now))%Z /\
+              (h_credit h' <= f_round_to_isize (PrimFloat.mul (f_of_N (sr_rate (h_src h))) (opt_default f0 (sr_rtt_s (h_src h)))))%Z
+  end.
+Proof. exact step_gain. Qed.
+
+Theorem C13_flush_leaves_credit :
+  forall h h' out, hc_flush h = Ok (h', out) -> out <> [] -> exists pre l, out = pre ++ [l] /\ (- Z.of_N (len l) <= h_credit h')%Z.
+Proof. exact flush_leaves_credit. Qed.
+
+(* non-vacuity: a history with three steps and three flushes that emits 54 bytes against 3594 bytes of gains *)
+Example C13_ledger_run :
+  let c := mkHcConfig 4294967295 7 64 64 1048575 3 16 16 100000 100000 100000 None in
+  let ops := [OpSend [1; 2; 3] 0 Reliable; OpSend [4] 1 Unreliable; OpStep 10; OpFlush;
+              OpFrame (FAcks 0 0 [mkAg 4294967295 1 (nonce_bit 5 4294967295)]); OpStep 500; OpFlush;
+              OpSend [9; 9] 0 Reliable; OpStep 900; OpFlush] in
+  let l := fold_left lstep ops (mkLedger (hc_new c 5) 0 0) in
+  (lg_bytes l, lg_gain l, h_credit (lg_h l)) = (54, 3594, 3540)%Z.
+Proof. vm_compute. reflexivity. Qed.
+
 Check C13_rate_le_ceiling : forall m ops, MSS <= m -> sr_rate (fold_left rate_step ops (src_new m)) <= m.
 Check C13_flush_within_credit : forall h h' out, hc_flush h = Ok (h', out) ->
     ((h_credit h < 0)%Z -> out = []) /\ (forall pre l, out = pre ++ [l] -> (bytes_of pre <= h_credit h)%Z).
 Check C13_refill_schedule_independent : forall rate ts t0, refills rate t0 ts = refill rate t0 (last ts t0).
+Check C13_credit_ledger.
